@@ -300,23 +300,31 @@ def bind_subsets():
         yield kw
 
 
+def _spell(h, style):
+    return {"lower": h, "title": "-".join(w.capitalize() for w in h.split("-")), "upper": h.upper()}[style]
+
+
 def proxy_subsets():
     for tp in (None, "10.0.0.1", "*", ""):
-        for count in (None, 1, 3):
+        for count in (None, 0, 1, 3):
             for m in range(1 << len(KINDS)):
-                hs = [KINDS[i] for i in range(len(KINDS)) if m >> i & 1]
+                hs0 = [KINDS[i] for i in range(len(KINDS)) if m >> i & 1]
                 for form in ("list", "str"):
-                    kw = {}
-                    if tp is not None:
-                        kw["trusted_proxy"] = tp
-                    if count is not None:
-                        kw["trusted_proxy_count"] = count
-                    if hs:
-                        kw["trusted_proxy_headers"] = hs if form == "list" else " ".join(hs)
-                    elif form == "str":
-                        continue
-                    yield kw
-            for bogus in (["bogus"], ["x-forwarded-for", "x-forwarded"], ["Forwarded"], ["X-FORWARDED-FOR", "forwarded"], "x-forwarded-for\nbogus"):
+                    # header kinds are case-insensitive on input (the code lower-cases them): every subset in three spellings
+                    for style in (("lower", "title", "upper") if hs0 else ("lower",)):
+                        hs = [_spell(h, style) for h in hs0]
+                        kw = {}
+                        if tp is not None:
+                            kw["trusted_proxy"] = tp
+                        if count is not None:
+                            kw["trusted_proxy_count"] = count
+                        if hs:
+                            kw["trusted_proxy_headers"] = hs if form == "list" else " ".join(hs)
+                        elif form == "str":
+                            continue
+                        yield kw
+            for bogus in (["bogus"], ["x-forwarded-for", "x-forwarded"], ["Forwarded"], ["X-FORWARDED-FOR", "forwarded"], "x-forwarded-for\nbogus",
+                          ["x-forwarded-for", "Forwarded"], "FORWARDED x-forwarded-proto"):
                 kw = {"trusted_proxy_headers": bogus}
                 if tp is not None:
                     kw["trusted_proxy"] = tp
